@@ -5,6 +5,7 @@ import PncModel.Camx.SlabRead
 import PncModel.Camx.CloudRainRead
 import PncModel.Camx.BoundaryRead
 import PncModel.Camx.UamivRead
+import PncModel.Camx.WindRecRead
 /- line protocol for the binary-format models -/
 namespace Camx
 open Words Wire
@@ -106,6 +107,7 @@ def runBin : List String → String
   | "bnd-enc" :: toks => Slab.runBnd toks
   | "wind-read" :: toks => Wind.runRead toks
   | "cr-read" :: toks => CloudRain.runRead toks
+  | "wind-rd" :: toks => WindRec.run ("wind-rd" :: toks)
   | "uamiv-rd" :: toks => UamivRead.run ("uamiv-rd" :: toks)
   | "bnd-read" :: toks => Boundary.runRead ("bnd-read" :: toks)
   | "slab-rd" :: toks => SlabRead.run ("slab-rd" :: toks)
